@@ -303,3 +303,300 @@ Proof.
   destruct (drain_rd_cursor data Hwf (Datatypes.S (length data)) (Datatypes.S (length data)) (ist_new start) r0 HI0 ltac:(lia)) as [H _].
   rewrite Hsp0 in H. exact H.
 Qed.
+
+(* ------------------------------------------------------------------ position independence *)
+Definition pres_shift (di : N) (p : pres) : pres :=
+  match p with PMsg n m => PMsg n (msg_shift di m) | other => other end.
+
+Lemma parse_after_marker_shift hsz pat short sh i di d :
+  parse_after_marker hsz pat short sh (i + di) d = pres_shift di (parse_after_marker hsz pat short sh i d).
+Proof.
+  unfold parse_after_marker.
+  repeat match goal with |- context [if ?c then _ else _] => destruct c end; reflexivity.
+Qed.
+Lemma parse_storage_shift i di d : parse_storage (i + di) d = pres_shift di (parse_storage i d).
+Proof.
+  unfold parse_storage. destruct (blen d <? MIN_DLT_MSG_SIZE); [reflexivity|].
+  destruct (storage_from_buf d); [apply parse_after_marker_shift|reflexivity].
+Qed.
+Lemma parse_serial_shift i di d : parse_serial (i + di) d = pres_shift di (parse_serial i d).
+Proof.
+  unfold parse_serial. destruct (blen d <? DLT_SERIAL_HEADER_SIZE + DLT_MIN_STD_HEADER_SIZE); [reflexivity|].
+  destruct (negb (is_serial_pat d)); [reflexivity|apply parse_after_marker_shift].
+Qed.
+
+Definition action_shift (di dp dk : N) (a : action) : action :=
+  match a with
+  | AYield n m st' => AYield n (msg_shift di m) (ist_shift di dp dk st')
+  | ASkip st' => ASkip (ist_shift di dp dk st')
+  | other => other
+  end.
+Definition is_yield (a : action) : bool := match a with AYield _ _ _ => true | _ => false end.
+
+Lemma ist_eq a b c d e a' b' c' :
+  a = a' -> b = b' -> c = c' ->
+  {| i_index := a; i_processed := b; i_skipped := c; i_det_storage := d; i_det_serial := e |} =
+  {| i_index := a'; i_processed := b'; i_skipped := c'; i_det_storage := d; i_det_serial := e |}.
+Proof. intros -> -> ->. reflexivity. Qed.
+
+Lemma on_msg_shift storage di dp dk st n m a :
+  on_msg storage st n m = Ok a -> i_index st + di + 1 <= u32max ->
+  on_msg storage (ist_shift di dp dk st) n (msg_shift di m) = Ok (action_shift di dp dk a).
+Proof.
+  unfold on_msg, add_chk. intros H Hb. destruct (i_index st + 1 <=? u32max); [|discriminate].
+  cbn [bind] in H. inversion H; subst a. clear H. cbn [ist_shift i_index].
+  assert (E : (i_index st + di + 1 <=? u32max) = true) by (apply N.leb_le; exact Hb). rewrite E.
+  cbn [bind action_shift]. f_equal. f_equal. unfold ist_shift. cbn [i_index i_processed i_skipped i_det_storage i_det_serial].
+  apply ist_eq; lia.
+Qed.
+
+Lemma skip1_shift di dp dk st : skip1 (ist_shift di dp dk st) = ist_shift di dp dk (skip1 st).
+Proof. unfold skip1, ist_shift. cbn [i_index i_processed i_skipped i_det_storage i_det_serial]. apply ist_eq; lia. Qed.
+
+Lemma storage_half_shift di dp dk st w a :
+  storage_half false st w = Ok a -> (is_yield a = true -> i_index st + di + 1 <= u32max) ->
+  storage_half false (ist_shift di dp dk st) w = Ok (action_shift di dp dk a).
+Proof.
+  unfold storage_half. cbn [ist_shift i_index i_det_storage]. rewrite parse_storage_shift.
+  destruct (parse_storage (i_index st) w) as [n m| |k]; cbn [pres_shift orb]; intros H Hb.
+  - apply on_msg_shift; [exact H|]. apply Hb. unfold on_msg in H.
+    destruct (add_chk u32max (i_index st) 1); cbn [bind] in H; inversion H. reflexivity.
+  - destruct (i_det_storage st); inversion H; subst a; cbn [action_shift]; [rewrite skip1_shift|]; reflexivity.
+  - destruct (i_det_storage st); inversion H; subst a; reflexivity.
+Qed.
+
+Lemma serial_half_shift di dp dk st w a :
+  serial_half st w = Ok a -> (is_yield a = true -> i_index st + di + 1 <= u32max) ->
+  serial_half (ist_shift di dp dk st) w = Ok (action_shift di dp dk a).
+Proof.
+  unfold serial_half. cbn [ist_shift i_index]. rewrite parse_serial_shift.
+  destruct (parse_serial (i_index st) w) as [n m| |k]; cbn [pres_shift]; intros H Hb.
+  - apply on_msg_shift; [exact H|]. apply Hb. unfold on_msg in H.
+    destruct (add_chk u32max (i_index st) 1); cbn [bind] in H; inversion H. reflexivity.
+  - inversion H; subst a. cbn [action_shift]. rewrite skip1_shift. reflexivity.
+  - inversion H; subst a. reflexivity.
+Qed.
+
+Lemma next_shift di dp dk : forall fuel st d o st' d',
+  next fuel st d = Ok (o, st', d') ->
+  (o <> None -> i_index st' + di <= u32max) ->
+  next fuel (ist_shift di dp dk st) d = Ok (option_map (msg_shift di) o, ist_shift di dp dk st', d').
+Proof.
+  unfold next.
+  induction fuel as [|f IH]; intros st d o st' d' H Hb; [discriminate|].
+  rewrite next_S in H |- *. cbn [ist_shift i_det_serial i_det_storage].
+  (* index bound at a yield: the yielded state has index + 1 *)
+  assert (Hy : forall storage n m st1, on_msg storage st n m = Ok (AYield n m st1) -> i_index st1 = i_index st + 1).
+  { intros storage n m st1 E. unfold on_msg in E. destruct (add_chk u32max (i_index st) 1) as [x| |] eqn:Ea; cbn [bind] in E; inversion E.
+    unfold add_chk in Ea. destruct (i_index st + 1 <=? u32max); inversion Ea. reflexivity. }
+  assert (Hserial :
+    forall (Hs : (a2 <- serial_half st d ;;
+                  match a2 with
+                  | AYield n m st'0 => Ok (Some m, st'0, skipn (N.to_nat n) d)
+                  | AStop => Ok (None, st, d)
+                  | ASkip st'0 => next_l false f st'0 (skipn 1 d)
+                  | APass => next_l false f st d
+                  end)%res = Ok (o, st', d')),
+      (a2 <- serial_half (ist_shift di dp dk st) d ;;
+       match a2 with
+       | AYield n m st'0 => Ok (Some m, st'0, skipn (N.to_nat n) d)
+       | AStop => Ok (None, ist_shift di dp dk st, d)
+       | ASkip st'0 => next_l false f st'0 (skipn 1 d)
+       | APass => next_l false f (ist_shift di dp dk st) d
+       end)%res = Ok (option_map (msg_shift di) o, ist_shift di dp dk st', d')).
+  { intros Hs. destruct (serial_half st d) as [a2| |] eqn:E2; cbn [bind] in Hs; try discriminate.
+    assert (Hb2 : is_yield a2 = true -> i_index st + di + 1 <= u32max).
+    { destruct a2 as [n m st1| | |]; try discriminate. intros _. inversion Hs; subst.
+      assert (Hi : i_index st' = i_index st + 1).
+      { unfold serial_half in E2. destruct (parse_serial (i_index st) d) as [n' m'| |]; try discriminate.
+        pose proof E2 as E2'. unfold on_msg in E2'. destruct (add_chk u32max (i_index st) 1); cbn [bind] in E2'; inversion E2'; subst.
+        exact (Hy false n m _ E2). }
+      specialize (Hb ltac:(discriminate)). lia. }
+    rewrite (serial_half_shift di dp dk st d a2 E2 Hb2). cbn [bind].
+    destruct a2 as [n m st1|st1| |]; cbn [action_shift].
+    - inversion Hs; subst. reflexivity.
+    - apply IH; assumption.
+    - apply IH; assumption.
+    - inversion Hs; subst. reflexivity. }
+  destruct (i_det_serial st) eqn:Hds.
+  - cbn [bind] in H |- *. destruct (i_det_storage st) eqn:Hdst.
+    + apply IH; assumption.
+    + apply Hserial. exact H.
+  - destruct (storage_half false st d) as [a1| |] eqn:E1; cbn [bind] in H; try discriminate.
+    assert (Hb1 : is_yield a1 = true -> i_index st + di + 1 <= u32max).
+    { destruct a1 as [n m st1| | |]; try discriminate. intros _. inversion H; subst.
+      assert (Hi : i_index st' = i_index st + 1).
+      { unfold storage_half in E1. destruct (parse_storage (i_index st) d) as [n' m'| |]; try discriminate.
+        - pose proof E1 as E1'. unfold on_msg in E1'. destruct (add_chk u32max (i_index st) 1); cbn [bind] in E1'; inversion E1'; subst.
+          exact (Hy true n m _ E1).
+        - destruct (i_det_storage st); discriminate.
+        - destruct (false || i_det_storage st); discriminate. }
+      specialize (Hb ltac:(discriminate)). lia. }
+    rewrite (storage_half_shift di dp dk st d a1 E1 Hb1). cbn [bind].
+    destruct a1 as [n m st1|st1| |]; cbn [action_shift].
+    + inversion H; subst. reflexivity.
+    + apply IH; assumption.
+    + destruct (i_det_storage st) eqn:Hdst.
+      * apply IH; assumption.
+      * apply Hserial. exact H.
+    + inversion H; subst. reflexivity.
+Qed.
+
+Lemma on_msg_index storage st n m a : on_msg storage st n m = Ok a ->
+  exists st1, a = AYield n m st1 /\ i_index st1 = i_index st + 1.
+Proof.
+  unfold on_msg, add_chk. destruct (i_index st + 1 <=? u32max); [|discriminate]. cbn [bind].
+  intros H. inversion H. eexists. split; reflexivity.
+Qed.
+
+Lemma next_index_mono : forall fuel st d o st' d', next fuel st d = Ok (o, st', d') -> i_index st <= i_index st'.
+Proof.
+  unfold next. induction fuel as [|f IH]; intros st d o st' d' H; [discriminate|].
+  rewrite next_S in H.
+  assert (Hserial : (a2 <- serial_half st d ;;
+                  match a2 with
+                  | AYield n m st'0 => Ok (Some m, st'0, skipn (N.to_nat n) d)
+                  | AStop => Ok (None, st, d)
+                  | ASkip st'0 => next_l false f st'0 (skipn 1 d)
+                  | APass => next_l false f st d
+                  end)%res = Ok (o, st', d') -> i_index st <= i_index st').
+  { intros Hs. unfold serial_half in Hs. destruct (parse_serial (i_index st) d) as [n m| |k].
+    - destruct (on_msg false st n m) as [a| |] eqn:E; cbn [bind] in Hs; try discriminate.
+      destruct (on_msg_index _ _ _ _ _ E) as [st1 [-> Hi]]. inversion Hs; subst. lia.
+    - cbn [bind] in Hs. apply IH in Hs. cbn [skip1 i_index] in Hs. exact Hs.
+    - cbn [bind] in Hs. inversion Hs; subst. lia. }
+  destruct (i_det_serial st).
+  - cbn [bind] in H. destruct (i_det_storage st); [apply IH in H; exact H|apply Hserial; exact H].
+  - unfold storage_half in H. destruct (parse_storage (i_index st) d) as [n m| |k].
+    + destruct (on_msg true st n m) as [a| |] eqn:E; cbn [bind] in H; try discriminate.
+      destruct (on_msg_index _ _ _ _ _ E) as [st1 [-> Hi]]. inversion H; subst. lia.
+    + destruct (i_det_storage st); cbn [bind] in H.
+      * apply IH in H. cbn [skip1 i_index] in H. exact H.
+      * apply Hserial. exact H.
+    + cbn [orb] in H. destruct (i_det_storage st); cbn [bind] in H.
+      * inversion H; subst. lia.
+      * apply Hserial. exact H.
+Qed.
+
+Lemma drain_index_mono : forall fuel nfuel st d ms st' rest,
+  drain_fuel fuel nfuel st d = Ok (ms, st', rest) -> i_index st <= i_index st'.
+Proof.
+  unfold drain_fuel, drain_l. induction fuel as [|f IH]; intros nfuel st d ms st' rest H; [discriminate|].
+  cbn [drain_gen] in H. change (next_gen bytes cursor_fill cursor_consume false nfuel st d) with (next nfuel st d) in H.
+  destruct (next nfuel st d) as [[[o st1] d1]| |] eqn:En; cbn [bind] in H; try discriminate.
+  pose proof (next_index_mono _ _ _ _ _ _ En) as Hm.
+  destruct o as [m|].
+  - destruct (drain_gen bytes cursor_fill cursor_consume false f nfuel st1 d1) as [[[ms1 st2] d2]| |] eqn:Ed; cbn [bind] in H; try discriminate.
+    inversion H; subst. apply IH in Ed. lia.
+  - inversion H; subst. exact Hm.
+Qed.
+
+(* what the iterator recognises from a given state does not depend on its counters: advancing index /
+   bytes_processed / bytes_skipped shifts the results and nothing else (as long as the index fits u32) *)
+Theorem drain_shift di dp dk : forall fuel nfuel st d ms st' rest,
+  drain_fuel fuel nfuel st d = Ok (ms, st', rest) -> i_index st' + di <= u32max ->
+  drain_fuel fuel nfuel (ist_shift di dp dk st) d = Ok (map (msg_shift di) ms, ist_shift di dp dk st', rest).
+Proof.
+  unfold drain_fuel, drain_l. induction fuel as [|f IH]; intros nfuel st d ms st' rest H Hb; [discriminate|].
+  cbn [drain_gen] in H |- *.
+  change (next_gen bytes cursor_fill cursor_consume false nfuel st d) with (next nfuel st d) in H.
+  change (next_gen bytes cursor_fill cursor_consume false nfuel (ist_shift di dp dk st) d) with (next nfuel (ist_shift di dp dk st) d).
+  destruct (next nfuel st d) as [[[o st1] d1]| |] eqn:En; cbn [bind] in H; try discriminate.
+  destruct o as [m|].
+  - destruct (drain_gen bytes cursor_fill cursor_consume false f nfuel st1 d1) as [[[ms1 st2] d2]| |] eqn:Ed; cbn [bind] in H; try discriminate.
+    inversion H; subst. pose proof (drain_index_mono f nfuel st1 d1 ms1 st' rest Ed) as Hm.
+    rewrite (next_shift di dp dk nfuel st d (Some m) st1 d1 En ltac:(intros _; lia)). cbn [bind option_map].
+    rewrite (IH nfuel st1 d1 ms1 st' rest Ed Hb). reflexivity.
+  - inversion H; subst.
+    rewrite (next_shift di dp dk nfuel st d None st' rest En ltac:(intros C; contradiction C; reflexivity)). reflexivity.
+Qed.
+
+(* ------------------------------------------------------------------ whole messages in front of a suffix *)
+(* every message of the prefix is accepted where it stands (C01's acceptance condition: the bytes behind it
+   are fewer than 4, start with the frame marker, or no marker occurs inside the message) *)
+Fixpoint prefix_ok (f : framing) (l : list amsg) (s : bytes) : Prop :=
+  match l with
+  | [] => True
+  | a :: l' => wf_amsg a /\ accept_cond f a (encs f l' ++ s) /\ prefix_ok f l' s
+  end.
+Fixpoint yield_all (f : framing) (st : ist) (l : list amsg) : ist :=
+  match l with [] => st | a :: l' => yield_all f (st_yield f st a) l' end.
+
+Lemma drain_fuel_S fuel nfuel st d :
+  drain_fuel (S fuel) nfuel st d =
+  ('(o, st', r') <- next nfuel st d ;;
+   match o with
+   | None => Ok ([], st', r')
+   | Some m => '(ms, st'', r'') <- drain_fuel fuel nfuel st' r' ;; Ok (m :: ms, st'', r'')
+   end)%res.
+Proof. reflexivity. Qed.
+
+Lemma drain_prefix f : forall l s st fuel nfuel,
+  st_ok f st -> prefix_ok f l s -> i_index st + N.of_nat (length l) <= u32max ->
+  drain_fuel (length l + fuel) (S nfuel) st (encs f l ++ s) =
+  ('(ms, st', rest) <- drain_fuel fuel (S nfuel) (yield_all f st l) s ;;
+   Ok (expect_from f (i_index st) l ++ ms, st', rest))%res.
+Proof.
+  induction l as [|a l IH]; intros s st fuel nfuel Hok Hp Hb.
+  - cbn [length plus encs flat_map app yield_all expect_from].
+    destruct (drain_fuel fuel (S nfuel) st s) as [[[ms st'] rest]| |]; reflexivity.
+  - cbn [prefix_ok] in Hp. destruct Hp as [Hwa [Hacc Hp]].
+    cbn [length plus]. rewrite drain_fuel_S.
+    unfold encs. cbn [flat_map]. fold (encs f l). rewrite <- app_assoc.
+    assert (Hl : N.of_nat (length (a :: l)) = N.of_nat (length l) + 1) by (cbn [length]; lia).
+    rewrite (turn_msg f nfuel st a (encs f l ++ s) Hok Hwa ltac:(lia) Hacc). cbn [bind].
+    rewrite (IH s (st_yield f st a) fuel nfuel (st_ok_yield f st a Hok) Hp ltac:(cbn [st_yield i_index]; lia)).
+    cbn [yield_all expect_from st_yield i_index].
+    destruct (drain_fuel fuel (S nfuel) (yield_all f (st_yield f st a) l) s) as [[[ms st'] rest]| |]; reflexivity.
+Qed.
+
+Lemma blen_encs_cons f a l : blen (encs f (a :: l)) = blen (enc f a) + blen (encs f l).
+Proof. unfold encs. cbn [flat_map]. apply blen_app. Qed.
+
+Lemma yield_all_latched f : forall l st,
+  own_detected f st = true ->
+  yield_all f st l =
+  ist_shift (i_index st + N.of_nat (length l)) (i_processed st + blen (encs f l)) (i_skipped st) (latched f st).
+Proof.
+  induction l as [|a l IH]; intros st Hown.
+  - cbn [yield_all length encs flat_map]. unfold ist_shift, latched, own_detected in *.
+    destruct st as [i p k ds dse]. cbn [i_index i_processed i_skipped i_det_storage i_det_serial] in *.
+    destruct f; subst; apply ist_eq; cbn; lia.
+  - cbn [yield_all]. rewrite IH by apply own_detected_yield.
+    rewrite blen_encs_cons. unfold ist_shift, latched, st_yield, own_detected in *.
+    destruct st as [i p k ds dse]. cbn [i_index i_processed i_skipped i_det_storage i_det_serial length] in *.
+    destruct f; subst; apply ist_eq; lia.
+Qed.
+
+Lemma yield_all_latched_ne f a l st :
+  yield_all f st (a :: l) =
+  ist_shift (i_index st + N.of_nat (length (a :: l))) (i_processed st + blen (encs f (a :: l))) (i_skipped st) (latched f st).
+Proof.
+  cbn [yield_all]. rewrite yield_all_latched by apply own_detected_yield.
+  rewrite blen_encs_cons. unfold ist_shift, latched, st_yield.
+  destruct st as [i p k ds dse]. cbn [i_index i_processed i_skipped i_det_storage i_det_serial length].
+  destruct f; apply ist_eq; lia.
+Qed.
+
+(* k >= 1 whole messages in front of s (or none, with the framing already latched): the stream yields those
+   messages and then exactly what the latched iterator yields on s alone, with index / bytes_processed advanced
+   by the prefix and nothing else changed *)
+Theorem position_independent f l s st fuel nfuel ms st' rest :
+  st_ok f st -> prefix_ok f l s -> (l <> [] \/ own_detected f st = true) ->
+  drain_fuel fuel (S nfuel) (latched f st) s = Ok (ms, st', rest) ->
+  i_index st + N.of_nat (length l) + i_index st' <= u32max ->
+  drain_fuel (length l + fuel) (S nfuel) st (encs f l ++ s) =
+  Ok (expect_from f (i_index st) l ++ map (msg_shift (i_index st + N.of_nat (length l))) ms,
+      ist_shift (i_index st + N.of_nat (length l)) (i_processed st + blen (encs f l)) (i_skipped st) st',
+      rest).
+Proof.
+  intros Hok Hp Hne Hd Hb.
+  rewrite (drain_prefix f l s st fuel nfuel Hok Hp ltac:(lia)).
+  assert (Hy : yield_all f st l =
+               ist_shift (i_index st + N.of_nat (length l)) (i_processed st + blen (encs f l)) (i_skipped st) (latched f st)).
+  { destruct l as [|a l']; [|apply yield_all_latched_ne].
+    destruct Hne as [Hne|Hne]; [contradiction Hne; reflexivity|]. apply yield_all_latched. exact Hne. }
+  rewrite Hy.
+  rewrite (drain_shift (i_index st + N.of_nat (length l)) (i_processed st + blen (encs f l)) (i_skipped st)
+             fuel (S nfuel) (latched f st) s ms st' rest Hd ltac:(lia)). reflexivity.
+Qed.
